@@ -15,6 +15,7 @@
 #include <fcntl.h>
 #include <fstream>
 #include <iostream>
+#include <set>
 #include <sstream>
 #include <sys/mman.h>
 #include <sys/resource.h>
@@ -50,6 +51,23 @@ static const char *lb(lbool v) { return v == True ? "T" : v == False ? "F"
                                                                       : "U"; }
 // a flaw that was never initialised (its cause was already false) has no phi: it is not in the plan
 static const char *lv(solver &s, const lit &l) { return is_undefined(l) ? "F" : lb(s.get_sat_core().value(l)); }
+
+// the atoms a flaw ultimately stems from: the effects of its active causes, followed through flaws that are not atoms
+// (a disjunction inside a rule, a variable choice) up to the nearest atom flaws
+static void ancestor_atoms(solver &s, const flaw &f, std::set<long> &out, int depth = 0)
+{
+  if (depth > 64)
+    return;
+  for (auto *c : f.get_causes())
+  {
+    if (std::string(lv(s, c->get_rho())) != "T")
+      continue;
+    if (auto *paf = dynamic_cast<atom_flaw *>(&c->get_effect()))
+      out.insert((long)paf->get_atom().get_id());
+    else
+      ancestor_atoms(s, c->get_effect(), out, depth + 1);
+  }
+}
 
 static std::string dump_atoms(solver &s)
 {
@@ -87,7 +105,12 @@ static std::string dump_atoms(solver &s)
         long aid = 0;
         if (auto *paf = dynamic_cast<atom_flaw *>(pf))
           aid = (long)paf->get_atom().get_id();
-        o += "{\"atom\":" + std::to_string(aid) + ",\"phi\":\"" + lv(s, pf->get_phi()) + "\"}";
+        // a flaw can have several causes (e.g. a timeline inconsistency between two atoms): it belongs to the plan only
+        // when all of them are active
+        bool all_causes = true;
+        for (auto *c : pf->get_causes())
+          all_causes = all_causes && std::string(lv(s, c->get_rho())) == "T";
+        o += "{\"atom\":" + std::to_string(aid) + ",\"phi\":\"" + lv(s, pf->get_phi()) + "\",\"all_causes_active\":" + (all_causes ? "true" : "false") + "}";
       }
       o += "]}";
     }
@@ -101,6 +124,17 @@ static std::string dump_atoms(solver &s)
       if (auto *paf = dynamic_cast<atom_flaw *>(&c->get_effect()))
         aid = (long)paf->get_atom().get_id();
       o += "{\"rho\":\"" + std::string(lv(s, c->get_rho())) + "\",\"effect_atom\":" + std::to_string(aid) + ",\"unify\":" + (is_unification(*c) ? "true" : "false") + "}";
+    }
+    o += "],\"ancestor_atoms\":[";
+    {
+      std::set<long> anc;
+      ancestor_atoms(s, *af, anc);
+      bool f4 = true;
+      for (long x : anc)
+      {
+        o += (f4 ? "" : ",") + std::to_string(x);
+        f4 = false;
+      }
     }
     o += "]}";
   }
